@@ -219,8 +219,8 @@ package gtfs
 //@   assigns nothing
 
 // p is the element of slice s whose id is the key (C03: "the very element of the result's collection")
-//@ pure func stopIn(p *Stop, stops []Stop, id string) bool = p != nil && obj(p) == obj(stops) && off(stops) <= idx(p) && idx(p) < off(stops) + len(stops) && p.Id == id
-//@ pure func tripIn(p *ScheduledTrip, trips []ScheduledTrip, id string) bool = p != nil && obj(p) == obj(trips) && off(trips) <= idx(p) && idx(p) < off(trips) + len(trips) && p.ID == id
+//@ pure func stopIn(p *Stop, stops []Stop, id string) bool = p != nil && obj(p) == obj(stops) && off(stops) <= idx(p) && idx(p) < off(stops) + len(stops) && p == &stops[idx(p) - off(stops)] && p.Id == id
+//@ pure func tripIn(p *ScheduledTrip, trips []ScheduledTrip, id string) bool = p != nil && obj(p) == obj(trips) && off(trips) <= idx(p) && idx(p) < off(trips) + len(trips) && p == &trips[idx(p) - off(trips)] && p.ID == id
 
 // a stop_times row is accepted iff a time is given, the sequence is a number, the three required cells are
 // non-blank and both references resolve (C09 lists exactly these causes of rejection)
@@ -232,9 +232,15 @@ package gtfs
 //@ pure func stAppended(T *ScheduledTrip, f *csv.File, idToStop ?) bool = len(T.StopTimes) == athead(3, len(T.StopTimes)) + 1 && stFaithful(T.StopTimes[len(T.StopTimes) - 1], f, idToStop)
 //@ pure func stPrefixKept(T *ScheduledTrip) bool = forall k int :: 0 <= k && k < athead(3, len(T.StopTimes)) ==> T.StopTimes[k] == athead(3, T.StopTimes[k])
 
+// no two trips share the storage of their stop times (each list is grown by append / make from nothing)
+//@ pure func ownStorage(trips []ScheduledTrip) bool = forall i int, j int :: 0 <= i && i < len(trips) && 0 <= j && j < len(trips) && i != j ==> cap(trips[i].StopTimes) == 0 || cap(trips[j].StopTimes) == 0 || obj(trips[i].StopTimes) != obj(trips[j].StopTimes)
+// only the trip the index maps its ID to ever receives stop times
+//@ pure func onlyIndexed(trips []ScheduledTrip, idToTrip ?) bool = forall j int :: 0 <= j && j < len(trips) ==> len(trips[j].StopTimes) == 0 || idToTrip[trips[j].ID] == &trips[j]
+
 //@ func parseScheduledStopTimes
 //@   props C01 C03 C05 C08 C09 C10
 //@   requires csvOK(csv)
+//@   ensures [stop-times-ordered-by-sequence] forall j int, a int, b int :: 0 <= j && j < len(trips) && 0 <= a && a < b && b < len(trips[j].StopTimes) ==> trips[j].StopTimes[a].StopSequence <= trips[j].StopTimes[b].StopSequence
 //@   requires [no-stop-times-yet] forall j int :: 0 <= j && j < len(trips) ==> len(trips[j].StopTimes) == 0 && cap(trips[j].StopTimes) == 0
 //@   loop 1 invariant idToStop != nil && fresh(idToStop) && (forall id string :: has(idToStop, id) ==> stopIn(idToStop[id], stops, id))
 //@   loop 2 invariant idToTrip != nil && fresh(idToTrip) && (forall id string :: has(idToTrip, id) ==> tripIn(idToTrip[id], trips, id))
@@ -242,13 +248,24 @@ package gtfs
 //@   loop 3 invariant [ctx] csvOK(csv) && idToStop != nil && idToTrip != nil && idToStop != idToTrip
 //@   loop 3 invariant [stops-by-id] forall id string :: has(idToStop, id) ==> stopIn(idToStop[id], stops, id)
 //@   loop 3 invariant [trips-by-id] forall id string :: has(idToTrip, id) ==> tripIn(idToTrip[id], trips, id)
+//@   loop 3 invariant [own-storage] ownStorage(trips)
+//@   loop 3 invariant [only-indexed-trips-have-stop-times] onlyIndexed(trips, idToTrip)
 //@   loop 3 invariant [current-trip-cache] currentTrip == nil || currentTrip == idToTrip[currentTripID]
 //@   loop 3 step [rejected-unless-its-trip-is-at-hand] stRowAccepted(csv, idToStop, idToTrip) ==> currentTrip != nil && currentTrip == idToTrip[col(csv, "trip_id")]
 //@   loop 3 step [accepted-row-is-appended-to-its-trip] stRowAccepted(csv, idToStop, idToTrip) ==> stAppended(idToTrip[col(csv, "trip_id")], csv, idToStop)
 //@   loop 3 step [earlier-stop-times-of-that-trip-kept] stRowAccepted(csv, idToStop, idToTrip) ==> stPrefixKept(idToTrip[col(csv, "trip_id")])
-//@   loop 3 step [rejected-row-is-inert] !stRowAccepted(csv, idToStop, idToTrip) ==> (forall j int :: 0 <= j && j < len(trips) ==> len(trips[j].StopTimes) == athead(3, len(trips[j].StopTimes)))
+//@   loop 3 step [no-other-trip-grows] forall j int :: 0 <= j && j < len(trips) && !(stRowAccepted(csv, idToStop, idToTrip) && &trips[j] == idToTrip[col(csv, "trip_id")]) ==> len(trips[j].StopTimes) == athead(3, len(trips[j].StopTimes))
+//@   loop 3 step [stop-times-already-stored-are-kept] forall j int, k int :: 0 <= j && j < len(trips) && 0 <= k && k < athead(3, len(trips[j].StopTimes)) ==> trips[j].StopTimes[k] == athead(3, trips[j].StopTimes[k])
 //@   loop 3 decreases remaining(csv.csvReader)
 //@   loop 4 invariant idToTrip != nil && (forall id string :: has(idToTrip, id) ==> tripIn(idToTrip[id], trips, id))
+//@   loop 4 invariant [own-storage] ownStorage(trips)
+//@   loop 4 invariant [only-indexed-trips-have-stop-times] onlyIndexed(trips, idToTrip)
+//@   loop 4 step [this-trip-sorted] forall a int, b int :: 0 <= a && a < b && b < len(trip.StopTimes) ==> trip.StopTimes[a].StopSequence <= trip.StopTimes[b].StopSequence
+//@   loop 4 step [this-trip-is-an-element] 0 <= idx(trip) - off(trips) && idx(trip) - off(trips) < len(trips) && trip == &trips[idx(trip) - off(trips)]
+//@   loop 4 step [other-trips-stored-elsewhere] forall j int :: 0 <= j && j < len(trips) && &trips[j] != trip ==> cap(trips[j].StopTimes) == 0 || cap(trip.StopTimes) == 0 || obj(trips[j].StopTimes) != obj(trip.StopTimes)
+//@   loop 4 step [other-trips-untouched] forall id string, k int :: has(idToTrip, id) && idToTrip[id] != trip && 0 <= k && k < len(idToTrip[id].StopTimes) ==> idToTrip[id].StopTimes[k] == athead(4, idToTrip[id].StopTimes[k])
+//@   loop 4 invariant [visited-are-keys] forall id string :: visited(id) ==> has(idToTrip, id)
+//@   loop 4 invariant [sorted-so-far] forall id string, a int, b int :: visited(id) && 0 <= a && a < b && b < len(idToTrip[id].StopTimes) ==> idToTrip[id].StopTimes[a].StopSequence <= idToTrip[id].StopTimes[b].StopSequence
 
 // the cell of the current row under header `name` ("" when the file has no such column): C01 "the value written in
 // that row under the corresponding column header"
